@@ -795,7 +795,9 @@ func gen(g *hx.Gen) {
 	}
 	if g.Thorough() {
 		for i := 0; i < 300; i++ {
-			pt := plaintext(r, g)
+			// GnuPG's cleartext filter is not NUL-safe (every one of its rejections in 2×300 samples had a NUL in
+			// the text, none without): the interop sample uses NUL-free texts
+			pt := bytes.ReplaceAll(plaintext(r, g), []byte{0}, []byte("0"))
 			g.Stat("gpgclr")
 			g.Emit("gpgclr ch=%s pt=%s", hx.JoinInts(chunking(r, len(pt))), hx.Hex(pt))
 		}
